@@ -3,7 +3,7 @@ import MitmVerif.Model.C35_Str
 import Driver.Proto
 open MitmVerif Driver
 open MitmVerif.C35
-open MitmVerif.C35.Api (AOp ARet K1 KV)
+open MitmVerif.C35.Api (AOp ARet K1 KV POp)
 
 /-
   One case per line:
@@ -80,7 +80,7 @@ def parseOp : List String → Option (AOp × List String)
           | some k, some v => some (AOp.kv kind t k v, r)
           | _, _ => none
         | _ => none
-      let plain (op : Op) : Option (AOp × List String) := some (AOp.plain op, rest)
+      let plain (op : POp) : Option (AOp × List String) := some (AOp.plain op, rest)
       if o = "gi" then k1 .getItem
       else if o = "ge" then k1 .get
       else if o = "ga" then k1 .getAll
@@ -110,24 +110,24 @@ def parseOp : List String → Option (AOp × List String)
         | _ => none
       else if o = "eq" then
         match rest with
-        | u :: r => u.toNat?.map (fun u => (AOp.plain (Op.eq t u), r))
+        | u :: r => u.toNat?.map (fun u => (AOp.plain (POp.eq t u), r))
         | _ => none
       else if o = "ks" then
         match rest with
-        | m :: r => (flag? m).map (fun m => (AOp.plain (Op.keys t m), r))
+        | m :: r => (flag? m).map (fun m => (AOp.plain (POp.keys t m), r))
         | _ => none
       else if o = "vs" then
         match rest with
-        | m :: r => (flag? m).map (fun m => (AOp.plain (Op.values t m), r))
+        | m :: r => (flag? m).map (fun m => (AOp.plain (POp.values t m), r))
         | _ => none
-      else if o = "it" then plain (Op.iter t)
-      else if o = "ln" then plain (Op.len t)
-      else if o = "cp" then plain (Op.copy t)
-      else if o = "im" then plain (Op.itemsMulti t)
-      else if o = "is" then plain (Op.items t)
-      else if o = "pi" then plain (Op.popitem t)
-      else if o = "cl" then plain (Op.clear t)
-      else if o = "by" then plain (Op.toBytes t)
+      else if o = "it" then plain (POp.iter t)
+      else if o = "ln" then plain (POp.len t)
+      else if o = "cp" then plain (POp.copy t)
+      else if o = "im" then plain (POp.itemsMulti t)
+      else if o = "is" then plain (POp.items t)
+      else if o = "pi" then plain (POp.popitem t)
+      else if o = "cl" then plain (POp.clear t)
+      else if o = "by" then plain (POp.toBytes t)
       else none
   | _ => none
 
@@ -216,6 +216,10 @@ def stepLine (line : String) : String :=
   | ["nat", h] =>
     match hexOr h with
     | some b => showStr (C35.native b)
+    | none => "bad-op"
+  | ["natr", h] =>
+    match hexOr h with
+    | some b => showStr (C35.nativeRange b)
     | none => "bad-op"
   | ["enc", u] =>
     match arg? u with
